@@ -16,8 +16,8 @@ import (
 )
 
 var (
-	escMu    sync.Mutex
-	escMemo  = map[*ssa.Function]map[int]int{} // 0 unknown/in progress, 1 no escape, 2 escapes
+	escMu   sync.Mutex
+	escMemo = map[*ssa.Function]map[int]int{} // 0 unknown/in progress, 1 no escape, 2 escapes
 )
 
 // allocStaysLocal: the address of the alloc does not outlive the function.
